@@ -84,5 +84,7 @@ Definition abs_norm (p : string) : bool :=
 (* a root is either empty or a normalised absolute path optionally followed by slashes (not just slashes) *)
 Definition root_ok (root : string) : bool :=
   String.eqb root "" || (abs_norm (rstrip_slash root) && negb (String.eqb (rstrip_slash root) "/")).
-Definition file_ok (p : string) : bool := abs_norm p && negb (String.eqb p "/").
+(* a file path: normalised, absolute, and not directly under the filesystem root *)
+Definition file_ok (p : string) : bool :=
+  abs_norm p && negb (String.eqb p "/") && negb (String.eqb (dir_of p) "/").
 Definition fields_ok (fs : list field) : bool := forallb (fun f => forallb file_ok (paths_of f)) fs.
